@@ -62,6 +62,20 @@ def H(arena, i):
 
 
 # ---------------------------------------------------------------------------------------------------------------------------------
+def mentions_err_guard(c):
+    found = [False]
+
+    def f(x):
+        if x[0] == 'struct' and 'CreateModuleError' in str(x[1]):
+            found[0] = True
+        if x[0] == 'path' and 'CreateModuleError' in str(x[1]):
+            found[0] = True
+        if x[0] == 'eq' and any(isinstance(y, tuple) and y and y[0] == 'f' and y[2] == 'binding_index' for y in x[1:3]):
+            found[0] = True
+    E.walk(c, f)
+    return found[0]
+
+
 class SkelEval(Eval):
     def __init__(self, ogp, model, options, src, include):
         super().__init__(self._leaf, flag_types=S.load().flags, lenient=False)
@@ -277,6 +291,14 @@ class SkelEval(Eval):
 
     def ev_is_some(self, t):
         return self.ev(t[1]) is not None
+
+    def ev_okcond(self, t):
+        # "an earlier `?` succeeded": the model module is accepted by construction (dense groups, unique bindings, parsable); the error
+        # branches themselves are judged by the C11 / C17 rules.  Conditions that can be evaluated are evaluated.
+        try:
+            return self.truth(t[1])
+        except Unbound:
+            return True
 
     def ev_is_ok(self, t):
         # `?` on a crate function that returns Result<_, CreateModuleError>: the model module is accepted by construction
